@@ -410,6 +410,9 @@ def execute(ctx, binary, scripts, tag):
     return [read_ndjson(os.path.join(d, "trace-%03d.ndjson" % i)) for i in range(len(scripts))]
 
 
+CHUNK = 8
+
+
 def validate(ctx, events, tag, max_rounds=6):
     """TLC-validates one trace (config + histories) against GatewayTrace.  Returns (accepted histories, rejected, rounds); every rejected
     entry carries the history, the index of the event the specification could not explain and the specification's own reason (the
@@ -418,6 +421,13 @@ def validate(ctx, events, tag, max_rounds=6):
     import re
     from vlib import write_ndjson
     config, hs = split_histories(events)
+    if len(hs) > CHUNK:
+        # the state of the specification carries one entry per transaction id of the trace: long traces are validated in pieces
+        acc, rejected, rounds = 0, [], 0
+        for c in range(0, len(hs), CHUNK):
+            a, r, n = validate(ctx, [config] + [e for h in hs[c:c + CHUNK] for e in h], "%s-%d" % (tag, c), max_rounds)
+            acc, rejected, rounds = acc + a, rejected + r, rounds + n
+        return acc, rejected, rounds
     rejected, rounds = [], 0
     wd = os.path.join(ctx.scratch, "tv-gateway-%s" % tag)
     if not os.path.isdir(wd):
@@ -462,7 +472,7 @@ def run(ctx):
     ctx.assumptions += ["one tick = 500 ms; fixed windows 2-4 s; concurrency slots expire after 2-4 s, collected every 1-2 s (passes awaited tick by tick)",
                         "sequential handling of overlapping transactions (concurrency is C18's subject)", "at most one concurrency quota per configuration",
                         "status-code filters only in configurations without answering processors (observation G4)"]
-    ncfg, nh, hl = (18, 8, 24) if not T else (100, 24, 40)
+    ncfg, nh, hl = (18, 8, 24) if not T else (int(os.environ.get("GW_NCFG", "100")), 24, 40)
     # candidates: twice as many as needed (random graphs are often refused by the loader: C05's subject), loaded once without histories
     cands = [rand_config(ctx.rng, n) for n in range(2 * ncfg)]
     forced = sorted(FORCED) * (1 if not T else 4)
@@ -533,12 +543,45 @@ def run(ctx):
             if not r2:
                 raise Broken("rejection not reproduced: %s" % json.dumps(w)[:800])
             ctx.violation(w, {"script": script, "trace": [rej["config"]] + rej["hist"], "rejected_at": rej["at"]})
+    if T:
+        selftest(ctx, traces)
     ctx.cov["transitions"] = max(1, ctx.cov["evaluations"])
     ctx.cov["states"] = max(1, ctx.cov["traces_validated_against_impl"])
     ctx.cov["gateway_stats"] = stats
     ctx.notes.append("states/transitions here are trace-validation counts (histories / transactions), no exhaustive run belongs to the composition itself")
     if min(v for k, v in stats.items() if not k.startswith("g")) == 0:
         raise Broken("vacuous run: %s" % stats)
+
+
+def selftest(ctx, traces):
+    """binding demonstration: a recorded history with one corrupted field must be rejected by the specification"""
+    import copy
+    done = set()
+    for ti, tr in enumerate(traces):
+        cfg, hs = split_histories(tr)
+        for h in hs:
+            for i, e in enumerate(h):
+                kind = None
+                if e["ev"] == "tx" and e["dir"] == "req" and e.get("status") and "answer" not in done:
+                    kind, h2 = "answer", copy.deepcopy(h)
+                    h2[i]["out"]["st"] += 1                       # the answer handed to the proxy carries another status
+                elif e["ev"] == "tx" and e["dir"] == "req" and any(s.get("out") == "below_limit" for s in e["seq"]) and "verdict" not in done:
+                    kind, h2 = "verdict", copy.deepcopy(h)
+                    for s in h2[i]["seq"]:
+                        if s.get("out") == "below_limit":
+                            s["out"] = "above_limit"                # a Limiter's verdict turned round
+                elif e["ev"] == "tx" and e["dir"] == "req" and e.get("inv") and len(e["seq"]) > 1 and "selection" not in done:
+                    kind, h2 = "selection", copy.deepcopy(h)
+                    h2[i]["x"]["url"] = [["o", "test"], ["nowhere"]]   # the flows ran for a url none of their filters accepts
+                if kind:
+                    done.add(kind)
+                    acc, rej, _ = validate(ctx, [cfg] + h2, "self-%s" % kind, max_rounds=1)
+                    if not rej:
+                        raise Broken("binding self-test: a history with a corrupted %s was accepted" % kind)
+            if len(done) == 3:
+                ctx.notes.append("binding self-test: corrupted answer / Limiter verdict / selection each rejected")
+                return
+    raise Broken("binding self-test could not find its three kinds of events (%s)" % sorted(done))
 
 
 def slim(e):
